@@ -188,7 +188,31 @@ func runC08(c *Ctx) {
 	rulePanicUnderLock(c) // a callback panicking under a lock that is not released by defer makes the recovery's Close block: no Logout, socket kept
 	R.Rule("R-state-writers", "who-may-write", "the closed flag is written only by Conn.Close", 1)
 	c.obWriters("Conn.closed", "set once the connection has been given up", "(*Conn).Close")
+	ruleSocketCloseOwner(c)
+}
 
+// ruleSocketCloseOwner (C08): the server closes a connection's socket only through Conn.Close — the one place that
+// also aborts the pipe, logs the session out and sets the closed flag the command loop tests. A handler that closes
+// c.conn itself leaves the flag unset: commands already buffered are still dispatched (callbacks after the peer was
+// told the connection is closed), and the Logout is left to the loop's exit.
+func ruleSocketCloseOwner(c *Ctx) {
+	R := c.R
+	R.Rule("R-socket-close-owner", "who-may-call", "on the server side net.Conn.Close is invoked only by Conn.Close", 1)
+	n := 0
+	for _, f := range c.P.AllFuncs() {
+		fn := funcName(f)
+		if !inSmtp(f) || !(strings.HasPrefix(fn, "(*Conn).") || strings.HasPrefix(fn, "(*Server).")) {
+			continue
+		}
+		allInstrs(f, func(in ssa.Instruction) {
+			if !labelHas(c.stdLabels(in), "icall:iface:(net.Conn).Close") {
+				return
+			}
+			n++
+			R.Ob(c.siteKey(in, "socket closed by Conn.Close only"), c.P.InstrPos(in), fn == "(*Conn).Close", fn+" closes the socket directly: the closed flag stays unset, so the command loop goes on dispatching buffered commands, and pipe abort and Logout are skipped at this point")
+		})
+	}
+	R.Ob("server/socket close found", "-", n >= 1, "no net.Conn.Close call found on the server side")
 }
 
 // fieldOwner returns the struct type name owning the field stored by in.
